@@ -280,8 +280,8 @@ def check(ctx):
                     if len(ru) != 1:
                         raise AnalysisBroken('random_number_usage call not found')
                     rterm = ('hcall', 'hep::random_number_usage')
-                    stvar = {'hep::mpi_vegas': 'pdf'}.get(name)
-                    st0 = ls.updates[stvar]['init'] if stvar else None
+                    su = upd_by_pre(ls, ke['args'][2]) if name == 'hep::mpi_vegas' else None
+                    st0 = su['init'] if su else None
                     want = mul(exp_draws[name](st0), rterm)
                     ok, wit = algebra.equal(usage, want)
                     targs = ru[0].get('targs') or ()
